@@ -136,8 +136,12 @@ RULE_PROP = {"cow": "C17", "list-rewritten": "C17", "ht-after-meta": "C17", "pru
 PLANS = {
     "C03": dict(quick=dict(behs=8, depth=20, mode="crash", budget=2, nested=1, stride=1, fs=[1, 3, 12, 25], mc_crashes=2, mutants=False, decode=True, max_ops=4, growth=2),
                 thorough=dict(behs=40, depth=28, mode="crash", budget=3, nested=2, stride=1, fs=[1, 3, 25], mc_crashes=3, mutants=True, decode=True, growth=6)),
-    "C04": dict(quick=dict(behs=8, depth=20, mode="both", budget=6, nested=2, stride=1, fs=[1, 3], mc_crashes=2, mutants=True, max_ops=4, decode=True),
-                thorough=dict(behs=36, depth=28, mode="both", budget=10, nested=2, stride=1, fs=[1, 3, 25], mc_crashes=3, mutants=True, decode=True)),
+    # (growth scripts: merkle pages cross the elision threshold, so that a page is stored for the first time with nodes
+    # the commit did not touch - what the WAL says about such a page matters only when the hash-table writes are lost)
+    "C04": dict(quick=dict(behs=8, depth=20, mode="both", budget=6, nested=2, stride=1, fs=[1, 3], mc_crashes=2, mutants=True, max_ops=4, decode=True,
+                           growth=2, growth_fs=[10, 12, 15], growth_embs=["deep(12)", "deep(18)", "deep(13)", "deep(12):z"]),
+                thorough=dict(behs=36, depth=28, mode="both", budget=10, nested=2, stride=1, fs=[1, 3, 25], mc_crashes=3, mutants=True, decode=True,
+                              growth=12, growth_fs=[8, 10, 12, 15, 19, 21], growth_embs=["deep(12)", "deep(18)", "deep(13)", "deep(12):z", "deep(24)"])),
     "C17": dict(quick=dict(behs=60, depth=24, mode="none", budget=0, nested=0, stride=1, fs=[1, 3, 25, 60], mc_crashes=1, mutants=True, flsweep=10),
                 thorough=dict(behs=600, depth=30, mode="none", budget=0, nested=0, stride=1, fs=[1, 3, 25, 60, 400], mc_crashes=2, mutants=True, flsweep=40)),
     # C16's crash leg: recovered images of histories whose merkle pages cross the elision threshold while parts of
@@ -214,8 +218,8 @@ def gen_scripts(pid, plan, seed, rng, with_overlay=True):
             commit({x: ("v2" if x == order[0] else "NoCh") for x in keys})
             store = dict(rng.choice(CRASH_STORE_CFGS))
             store.update(rollback=True, max_rollback_log_len=2, seed=rng.randrange(1 << 30), segment_size=0)
-            conc = dict(keys=keys, vals=sorted(consts["Vals"]), emb=rng.choice(plan.get("embs") or ["deep(12)"]),
-                        f=rng.choice(plan["fs"]), vtable=api.VTABLES["tiny"], seed=rng.randrange(1 << 30), probes=2)
+            conc = dict(keys=keys, vals=sorted(consts["Vals"]), emb=rng.choice(plan.get("growth_embs") or plan.get("embs") or ["deep(12)"]),
+                        f=rng.choice(plan.get("growth_fs") or plan["fs"]), vtable=api.VTABLES["tiny"], seed=rng.randrange(1 << 30), probes=2)
             run += 1
             sc = api.make_script(run, beh, store, conc)
             sc["crash_steps"] = [i for i, s in enumerate(beh) if s["a"] in SYNC_OPS]
